@@ -9,8 +9,14 @@ import (
 	"log"
 	"net"
 	"net/rpc"
+	"os"
+	"os/exec"
+	"path/filepath"
+	"sort"
 	"strings"
 	"sync"
+	"sync/atomic"
+	"syscall"
 	"time"
 
 	"github.com/EdgeCast/vflow/ipfix"
@@ -307,6 +313,12 @@ func fullCap(b []byte) []byte { return append(make([]byte, 0, len(b)), b...)[:le
 
 // runHistory replays the history on a fresh cache through the real decoder and peer API.
 func runHistory(c *histCase) (kind, what string) {
+	return runHistoryRange(c, 0, len(c.Msgs), "", "")
+}
+
+// runHistoryRange replays messages [from,to) on the cache loaded from file in ("" = fresh) and, when
+// out is given, saves the cache there afterwards - one collector life between two restarts.
+func runHistoryRange(c *histCase, from, to int, in, out string) (kind, what string) {
 	defer func() {
 		if p := recover(); p != nil {
 			kind, what = "panic", fmt.Sprint(p)
@@ -316,8 +328,17 @@ func runHistory(c *histCase) (kind, what string) {
 	var nc netflow9.MemCache
 	var cl *rpc.Client
 	var irpc *ipfix.IRPC
+	defer func() {
+		if out != "" && kind == "" {
+			if c.Proto == "ipfix" {
+				ic.Dump(out)
+			} else {
+				nc.Dump(out)
+			}
+		}
+	}()
 	if c.Proto == "ipfix" {
-		ic = ipfix.GetCache("")
+		ic = ipfix.GetCache(in)
 		irpc = ipfix.NewRPC(ic)
 		if len(c.Gets) > 0 {
 			srv := rpc.NewServer()
@@ -333,10 +354,14 @@ func runHistory(c *histCase) (kind, what string) {
 			}
 		}
 	} else {
-		nc = netflow9.GetCache("")
+		nc = netflow9.GetCache(in)
 	}
 	gi := 0
-	for i, m := range c.Msgs {
+	for gi < len(c.Gets) && c.Gets[gi].After < from {
+		gi++
+	}
+	for i := from; i < to && i < len(c.Msgs); i++ {
+		m := c.Msgs[i]
 		addr := fullCap(mon.UnHex(m.Exporter))
 		var recs []string
 		var errText string
@@ -499,6 +524,7 @@ func histMain(args mon.Args) {
 		one(g, []string{"ipfix", "nf9"}[(i/len(ap))%2], &p, false)
 	})
 	peerClientPhase(run, snap)
+	crossProcessHistories(run, snap, "hist:xproc", run.Pick(60, 1500))
 	// canary
 	{
 		g := mon.NewRNG(run.Seed, "canary", 0)
@@ -521,7 +547,7 @@ func histMain(args mon.Args) {
 			run.HarnessError("canary: comparator accepted a corrupted expectation")
 		}
 	}
-	run.SetRule("seeded histories of 5-200 messages over 2-50 exporters (4-byte, IPv4-mapped, IPv6) and a pool of 2-5 template ids: announcements, re-announcements with a different definition, data, announce+data and data/redefinition/data inside one message; a reference map (address octets, id) → latest definition, updated in history order, gives the expected records and the expected 'unknown template' reports of every message; IPFIX peer lookups (IRPC.Get directly and through a real net/rpc server on loopback) must return exactly the reference entry or 'not available'; a peer-client phase runs the real ipfix.RPCServer (port 8085) and fetches hundreds of templates through ONE ipfix.RPCClient, keeping each answer as the RPC loop does: every kept answer must stay equal to its own key's entry. Adversarial histories use key pairs with equal FNV-1-32 of address‖id (found by birthday search: same id on two exporters, different ids, IPv4/IPv6/mapped forms) and 20 structurally aliasing pairs (decimal concatenation without separator, addresses differing in one part only or with permuted octets, ids equal modulo 256 / xor 0x8000 / byte-swapped). distinct = (protocol, colliding, sizes, first datagram); non-trivial = at least one record expected")
+	run.SetRule("seeded histories of 5-200 messages over 2-50 exporters (4-byte, IPv4-mapped, IPv6) and a pool of 2-5 template ids: announcements, re-announcements with a different definition, data, announce+data and data/redefinition/data inside one message; a reference map (address octets, id) → latest definition, updated in history order, gives the expected records and the expected 'unknown template' reports of every message; IPFIX peer lookups (IRPC.Get directly and through a real net/rpc server on loopback) must return exactly the reference entry or 'not available'; a peer-client phase runs the real ipfix.RPCServer (port 8085) and fetches hundreds of templates through ONE ipfix.RPCClient, keeping each answer as the RPC loop does: every kept answer must stay equal to its own key's entry. 60-1500 further histories are cut at 1-3 points and every part runs in a process of its own that loads the cache file its predecessor saved (real restarts: per-process state such as a random hash seed differs between the lives). Adversarial histories use key pairs with equal FNV-1-32 of address‖id (found by birthday search: same id on two exporters, different ids, IPv4/IPv6/mapped forms) and 20 structurally aliasing pairs (decimal concatenation without separator, addresses differing in one part only or with permuted octets, ids equal modulo 256 / xor 0x8000 / byte-swapped). distinct = (protocol, colliding, sizes, first datagram); non-trivial = at least one record expected")
 	run.Assume("the RPC() loop itself (multicast discovery) cannot run in this sandbox (no interface with flags == 19); IRPC.Get, RPCServer and RPCClient.Get are exercised")
 	run.Set("sub_claims_not_reached", []string{"peer-fetch client loop (ipfix.RPC): needs multicast discovery"})
 	run.Finish()
@@ -626,4 +652,115 @@ func peerClientPhase(run *mon.Run, snap []wire.Elem) {
 		}
 	}
 	run.Set("peer_client_keys_served", len(keys))
+}
+
+// ---------------------------------------------------------------- histories across real process restarts
+
+type segReq struct {
+	Case     *histCase `json:"case"`
+	From, To int
+	In, Out  string
+}
+
+type segRes struct {
+	Kind string `json:"kind"`
+	What string `json:"what"`
+}
+
+// histSegChild runs one collector life of a history in a process of its own.
+func histSegChild(a mon.Args) {
+	var req segReq
+	b, err := os.ReadFile(a.Rest["req"])
+	if err != nil || json.Unmarshal(b, &req) != nil {
+		os.Exit(3)
+	}
+	k, w := runHistoryRange(req.Case, req.From, req.To, req.In, req.Out)
+	rb, _ := json.Marshal(segRes{k, w})
+	os.WriteFile(a.Rest["res"], rb, 0o644)
+	os.Exit(0)
+}
+
+// crossProcessHistories: the template cache outlives the collector through its cache file, so "any
+// earlier message" includes messages a previous process received. Each history is cut at 1-3 points;
+// every part runs in a fresh process that loads the file its predecessor saved (what shutdown and
+// start-up do), and the reference map predicts records and unknown-template reports exactly as for an
+// uninterrupted history. Anything per-process (a random hash seed, derived unexported state) that
+// leaks into the file layout or is lost through it shows here and only here.
+func crossProcessHistories(run *mon.Run, snap []wire.Elem, sigPrefix string, n int) {
+	self, err := os.Executable()
+	if err != nil {
+		run.HarnessError(err.Error())
+		return
+	}
+	dir := filepath.Join(os.Getenv("VERIF_RUN"), "xproc")
+	os.MkdirAll(dir, 0o755)
+	var restarts, parts int64
+	mon.ParallelFor(n, func(i int) {
+		g := mon.NewRNG(run.Seed, "xproc", i)
+		proto := []string{"ipfix", "nf9"}[i%2]
+		var c *histCase
+		for {
+			c = genHistory(g, proto, snap, nil)
+			if len(c.Msgs) >= 8 {
+				break
+			}
+		}
+		cuts := []int{}
+		for k := g.Range(1, 3); k > 0; k-- {
+			cuts = append(cuts, g.Range(1, len(c.Msgs)-1))
+		}
+		sort.Ints(cuts)
+		cuts = append(cuts, len(c.Msgs))
+		from, in := 0, ""
+		run.Eval(1)
+		nrec := 0
+		for _, m := range c.Msgs {
+			nrec += len(m.Expect)
+		}
+		if nrec > 0 {
+			run.Distinct(fmt.Sprintf("xproc|%s|%d|%v", proto, len(c.Msgs), cuts))
+		}
+		for pi, to := range cuts {
+			if to <= from {
+				continue
+			}
+			base := filepath.Join(dir, fmt.Sprintf("h%d.p%d", i, pi))
+			out := base + ".cache"
+			rb, _ := json.Marshal(segReq{Case: c, From: from, To: to, In: in, Out: out})
+			os.WriteFile(base+".req", rb, 0o644)
+			cmd := exec.Command(self, "--prop", "C04", "--hist-seg-child", "1", "--req", base+".req", "--res", base+".res")
+			cmd.SysProcAttr = &syscall.SysProcAttr{Pdeathsig: syscall.SIGKILL}
+			outB, err := cmd.CombinedOutput()
+			var res segRes
+			b, rerr := os.ReadFile(base + ".res")
+			if err != nil || rerr != nil || json.Unmarshal(b, &res) != nil {
+				run.Violation(sigPrefix+":"+proto+":process-died", fmt.Sprintf("history %d part %d (messages %d..%d, after %d restarts): the process died: %v %s", i, pi, from, to, pi, err, clip(string(outB), 600)), c)
+				return
+			}
+			atomic.AddInt64(&parts, 1)
+			if res.Kind != "" {
+				sig := sigPrefix + ":" + proto + ":" + res.Kind
+				if pi > 0 {
+					sig += ":after-restart"
+				}
+				run.Violation(sig, fmt.Sprintf("history %d, collector life %d (messages %d..%d, cache file loaded from the previous life: %v): %s", i, pi+1, from, to, in != "", res.What), c)
+				return
+			}
+			os.Remove(base + ".req")
+			os.Remove(base + ".res")
+			if in != "" {
+				os.Remove(in)
+			}
+			if pi > 0 {
+				atomic.AddInt64(&restarts, 1)
+			}
+			from, in = to, out
+		}
+		if in != "" {
+			os.Remove(in)
+		}
+	})
+	run.Set("histories_across_process_restarts", n)
+	run.Set("collector_lives_run_in_their_own_process", parts)
+	run.Set("restarts_with_the_cache_file_carried_over", restarts)
 }
